@@ -4,6 +4,7 @@ import (
 	"errors"
 	"fmt"
 	"io"
+	"net/http"
 	"regexp"
 	"runtime"
 	"strings"
@@ -170,6 +171,10 @@ func genC14(t *core.Tape, tier string) *Scenario {
 		p.RespMsgs = append(p.RespMsgs, smallPayload(t))
 	}
 	genHandlerProg(t, p, sc)
+	if (p.Kind == KServer || p.Kind == KBidi) && t.Bool(1, 2, "h.trailers") {
+		p.RespTrailer = http.Header{"X-T": {"t1", "t2"}, "X-U": {"u"}}
+		p.HProg = append(p.HProg, HOp{Op: "settrl"})
+	}
 	// client program
 	cancelAt := -1
 	byCancel := t.Bool(1, 4, "end.by.cancel")
@@ -274,6 +279,31 @@ func genC14(t *core.Tape, tier string) *Scenario {
 	if byCancel {
 		sc.Notes["end_by_cancel"]++
 	}
+	if p.Kind == KBidi && !byCancel && !p.InterceptorErr && len(p.ReqMsgs) > 0 && len(p.RespMsgs) > 0 && t.Bool(1, 6, "lockstep.readlimit") {
+		// Lock-step conversation (send, receive, send, receive, ..., close)
+		// with a client read limit that one of the responses exceeds: that
+		// Receive fails locally, and it must return although the handler is
+		// waiting for the client's next message.
+		n := min(len(p.ReqMsgs), len(p.RespMsgs))
+		p.Split = false
+		p.HProg, p.CProg, p.CProgRcv = nil, nil, nil
+		for i := 0; i < n; i++ {
+			p.HProg = append(p.HProg, HOp{Op: "recv"}, HOp{Op: "send", Arg: i})
+			p.CProg = append(p.CProg, COp{Op: "send", Arg: i}, COp{Op: "recv"})
+			if len(p.RespMsgs[i]) > 8 {
+				p.RespMsgs[i] = p.RespMsgs[i][:8]
+			}
+		}
+		p.HProg = append(p.HProg, HOp{Op: "drain"})
+		p.CProg = append(p.CProg, COp{Op: "closereq"}, COp{Op: "recvall"}, COp{Op: "closeresp"})
+		p.RespMsgs = p.RespMsgs[:n]
+		k := t.Choose(n, "oversize.which")
+		p.RespMsgs[k] = t.Bytes(40+t.Choose(100, "oversize.n"), 1, "oversize")
+		sc.Clients[0].ReadMax = 16
+		p.HErr = nil
+		p.clientLimit = true
+		sc.Notes["lockstep_client_read_limit"]++
+	}
 	if !p.Split {
 		earlyExitKnobs(p)
 	}
@@ -363,7 +393,9 @@ func checkC14(w *World, st core.Status, r *RunResult) []Violation {
 				closedReq = true
 			}
 		}
-		if closedReq && handlerDrains(p) && (p.Kind == KClient || p.Kind == KBidi) && o.H.Entered == 1 {
+		if closedReq && handlerDrains(p) && (p.Kind == KClient || p.Kind == KBidi) && o.H.Entered == 1 && !p.clientLimit {
+			// (not when the client's own failure broke the stream before it
+			// closed its side: then the handler sees that break, not a clean end)
 			r.Probes["drain_checked"]++
 			if !o.H.RecvEndSet {
 				add("handler-never-saw-end", "handler drained the request but never reached its end")
@@ -399,7 +431,14 @@ func checkC14(w *World, st core.Status, r *RunResult) []Violation {
 			}
 		}
 		// 6. the next Receive reports the handler's actual outcome
-		if o.FinalSet && o.H.Returned {
+		if p.clientLimit {
+			// the call ends on the client's own read limit: what is decided
+			// here is that everything returned and was released
+			r.Probes["client_limit_calls_terminated"]++
+			if o.FinalSet && o.Final == nil {
+				add("over-limit-ended-in-success", "a response message exceeded the client's read limit, yet the call ended in success")
+			}
+		} else if o.FinalSet && o.H.Returned {
 			if p.HErr == nil {
 				if o.Final != nil && (p.Kind == KServer || p.Kind == KBidi || respMsgOK(p)) {
 					add("outcome-mismatch", fmt.Sprintf("handler returned nil, client got %v", o.Final))
@@ -427,6 +466,22 @@ func checkC14(w *World, st core.Status, r *RunResult) []Violation {
 				add("outcome-mismatch/refused", "an interceptor refused the call, client saw success")
 			} else if !errors.As(o.Final, &ce) || ce.Code() != connect.Code(p.HErr.Code) || ce.Message() != p.HErr.Msg {
 				add("outcome-mismatch/refused", fmt.Sprintf("an interceptor refused the call with code %d %q, client got %v", p.HErr.Code, p.HErr.Msg, o.Final))
+			}
+		}
+		// 7b. Receives past the end of the stream change nothing: same trailers,
+		// same error metadata
+		if o.TrailerLater != nil && o.FinalSet {
+			r.Probes["receive_past_end_checked"]++
+			if a, b := hdrString(o.RespTrailer), hdrString(o.TrailerLater); a != b {
+				add("trailers-changed-by-receive-past-end", fmt.Sprintf("response trailers were %s when the stream ended and %s after further Receives", a, b))
+			}
+			for _, op := range all {
+				var ce *connect.Error
+				if op.Op == "recvmore" && op.Err != nil && o.Final != nil && errors.As(op.Err, &ce) {
+					if m := hdrString(ce.Meta()); m != o.FinalMeta {
+						add("error-metadata-changed-by-receive-past-end", fmt.Sprintf("error metadata was %s when the stream ended and %s on a further Receive", o.FinalMeta, m))
+					}
+				}
 			}
 		}
 		// 7. once Receive has reported an error it keeps reporting one
